@@ -293,18 +293,29 @@ func (p *Processor) GetParameters() []*publictypes.KeyValue {
 	return p.Parameters
 }
 
+// GetRequirements is also called on the filters of a published engine (the admin handlers read
+// them to build the HAProxy endpoints request, possibly several at once): it must not write.
+// A filter for which nothing was recorded requires nothing.
 func (f *Filter) GetRequirements() *streamTypes.ProcessorRequirement {
 	if f.flowRequirements == nil {
-		f.flowRequirements = &streamTypes.ProcessorRequirement{}
+		return &streamTypes.ProcessorRequirement{}
 	}
 
 	return f.flowRequirements
 }
 
+// requirements returns the record the setters write to; they run while the engine is built.
+func (f *Filter) requirements() *streamTypes.ProcessorRequirement {
+	if f.flowRequirements == nil {
+		f.flowRequirements = &streamTypes.ProcessorRequirement{}
+	}
+	return f.flowRequirements
+}
+
 func (f *Filter) SetBodyRequired(bodyRequired bool) {
-	f.flowRequirements.IsBodyRequired = bodyRequired
+	f.requirements().IsBodyRequired = bodyRequired
 }
 
 func (f *Filter) SetReqCaptureRequired(reqCaptureRequired bool) {
-	f.flowRequirements.IsReqCaptureRequired = reqCaptureRequired
+	f.requirements().IsReqCaptureRequired = reqCaptureRequired
 }
